@@ -122,12 +122,22 @@ def build_repo(variant="plain"):
     lib = os.path.join(d, "libcoloquinte.a")
     with Lock("repo-" + variant):
         if os.path.exists(lib):
+            try:
+                os.utime(d, None)
+            except OSError:
+                pass
             return lib
-        # drop stale caches of this variant (disk)
-        if os.path.isdir(CACHE):
+        # drop stale caches of this variant (disk); entries in recent use are kept (concurrent checks
+        # against scratch worktrees via VERIF_REPO)
+        if os.path.isdir(CACHE) and "VERIF_REPO" not in os.environ:
             for e in os.listdir(CACHE):
-                if e.endswith("-" + variant) and e != key:
-                    shutil.rmtree(os.path.join(CACHE, e), ignore_errors=True)
+                pe = os.path.join(CACHE, e)
+                try:
+                    old = time.time() - os.path.getmtime(pe) > 3 * 3600
+                except OSError:
+                    old = False
+                if e.endswith("-" + variant) and e != key and old:
+                    shutil.rmtree(pe, ignore_errors=True)
         os.makedirs(d, exist_ok=True)
 
         def comp(s):
@@ -210,11 +220,26 @@ def coq_grep_forbidden():
     return hits
 
 
+def coq_project():
+    """_CoqProject lists every .v file of coq/ (coq_makefile orders them with coqdep); rewritten only
+    when the set of files changed"""
+    cp = os.path.join(COQ, "_CoqProject")
+    want = "-Q . CV\n" + "".join(f + "\n" for f in coq_sources())
+    try:
+        have = open(cp).read()
+    except OSError:
+        have = None
+    if have != want:
+        with open(cp, "w") as f:
+            f.write(want)
+    return cp
+
+
 def coq_make(targets, timeout=1500):
     """full .vo build of the given targets (never -vos). returns (ok, log)"""
     with Lock("coq"):
         mk = os.path.join(COQ, "Makefile")
-        cp = os.path.join(COQ, "_CoqProject")
+        cp = coq_project()
         if (not os.path.exists(mk)) or os.path.getmtime(mk) < os.path.getmtime(cp):
             rc, out, err = sh(["coq_makefile", "-f", "_CoqProject", "-o", "Makefile"], cwd=COQ, timeout=120)
             if rc != 0:
@@ -275,28 +300,37 @@ def coq_assumptions(prop):
     return thms, res
 
 
-def build_driver():
-    """Extract.vo (extraction, ExtrOcamlBasic only) -> coq/model.ml(i); + ocaml/driver.ml -> exe"""
-    ok, log = coq_make(["Extract.vo"])
-    if not ok or not os.path.exists(os.path.join(COQ, "model.ml")):
+def build_driver(fam=None):
+    """Extract.vo (extraction, ExtrOcamlBasic only) -> coq/model.ml(i); + ocaml/driver.ml -> exe.
+    With a family name: coq/Extract_<fam>.v -> coq/model_<fam>.ml(i) + ocaml/driver_<fam>.ml."""
+    suf = "" if not fam else "_" + fam
+    ok, log = coq_make(["Extract%s.vo" % suf])
+    ml = os.path.join(COQ, "model%s.ml" % suf)
+    if os.path.exists(ml) and os.path.getmtime(ml) < os.path.getmtime(os.path.join(COQ, "Extract%s.v" % suf)):
+        ok = False
+    if not ok or not os.path.exists(ml):
+        # the .vo may be up to date while the .ml was removed: force
+        try:
+            os.unlink(os.path.join(COQ, "Extract%s.vo" % suf))
+        except OSError:
+            pass
+        ok, log = coq_make(["Extract%s.vo" % suf])
+    if not ok or not os.path.exists(ml):
         raise BuildError("extraction failed:\n" + log[-3000:])
-    srcs = [os.path.join(COQ, "model.mli"), os.path.join(COQ, "model.ml"),
-            os.path.join(ROOT, "ocaml", "driver.ml")]
+    names = ["model%s.mli" % suf, "model%s.ml" % suf, "driver%s.ml" % suf]
+    srcs = [os.path.join(COQ, names[0]), os.path.join(COQ, names[1]), os.path.join(ROOT, "ocaml", names[2])]
     key = _hash_files(srcs)
-    d = os.path.join(BUILD, "ocaml")
+    d = os.path.join(BUILD, "ocaml" + suf)
     exe = os.path.join(d, "driver_" + key)
-    with Lock("ocaml"):
+    with Lock("ocaml" + suf):
         if os.path.exists(exe):
             return exe
         shutil.rmtree(d, ignore_errors=True)
         os.makedirs(d)
         for s in srcs:
             shutil.copy(s, d)
-        rc, out, err = sh(["ocamlfind", "ocamlopt", "-O2", "-w", "-a", "-package", "str", "-linkpkg",
-                           "model.mli", "model.ml", "driver.ml", "-o", exe + ".tmp"], cwd=d, timeout=600)
-        if rc != 0:
-            rc, out, err = sh(["ocamlfind", "ocamlopt", "-w", "-a", "-package", "str", "-linkpkg",
-                               "model.mli", "model.ml", "driver.ml", "-o", exe + ".tmp"], cwd=d, timeout=600)
+        rc, out, err = sh(["ocamlfind", "ocamlopt", "-O2", "-w", "-a", "-package", "str", "-linkpkg"] + names +
+                          ["-o", exe + ".tmp"], cwd=d, timeout=600)
         if rc != 0:
             raise BuildError("ocaml driver does not build:\n" + err[-3000:])
         os.rename(exe + ".tmp", exe)
